@@ -96,7 +96,16 @@ def run_driver_parallel(lines, jobs=8):
 # ------------------------------------------------------------------------------ pyham side
 
 def nwk_of(D, with_internal=True):
-    return gen.newick(D.T, with_internal) + ';'
+    """the Newick text fed to pyham; optionally decorated with branch lengths (D.meta['lengths']) and, for
+    synthesised names, written without internal names (D.meta['nointernal'])"""
+    if D.meta.get('nointernal') and D.naming == 'synth':
+        with_internal = False
+    if not D.meta.get('lengths'):
+        return gen.newick(D.T, with_internal) + ';'
+    def rec(t, root=False):
+        s_ = t[0] if not t[1] else '(' + ','.join(rec(k) for k in t[1]) + ')' + (t[0] if with_internal else '')
+        return s_ if root else s_ + ':' + ('0.1' if len(t[0]) % 2 else '2.5')
+    return rec(D.T, True) + ';'
 
 def load_py(D, groups=None, species=None, **kw):
     """load the dataset with pyham (in-memory string transport); returns the Ham object"""
